@@ -83,6 +83,43 @@ class Analysis:
         self.cache[key] = (b, g)
         return b, g
 
+    def ctx_exit_graph(self, cls, which, count, other=0, threading=True, method="__exit__"):
+        """Graph of leaving (or entering) a buffering context of ``cls``:
+        which = 'obj' (obj.buffered) or 'backend' (cls.buffer_backend()),
+        count = value of that context's counter on entry to the call,
+        other = value of the other counter."""
+        model = self.m(threading)
+        cls = model.find_class(cls if isinstance(cls, str) else cls.name)
+        key = ("ctx", cls.qualname, which, count, other, threading, method)
+        if key in self.cache:
+            return self.cache[key]
+        counts = {("T", "buffered"): count if which == "obj" else other, ("C", "_buffer_context"): count if which == "backend" else other}
+        ctx = Ctx(cls, "root", "none", None, counts=counts)
+        b = Builder(model, ctx)
+        inst = Val("inst", (cls,), "root", "T")
+        b.g.entry = b.g.add("scratch", {}, ("<scratch>", 0), "<scratch>", (), "").id
+        b.exc_stack = [b.g.add("scratch", {}, ("<scratch>", 0), "<scratch>", (), "").id]
+        if which == "obj":
+            cm, _ = b.ev_attr(inst, "buffered", {b.g.entry})
+        else:
+            cm, _ = b.class_attr(Val("cls", (cls,)), "_buffer_context", {b.g.entry})
+        if cm.kind != "obj":
+            raise AnalysisError(f"anchor: buffering context of {cls.name} ({which}) is not a known context-manager object: {show(cm)}")
+        owner, v = model.lookup(cm.args[0], method)
+        if not isinstance(v, Method):
+            raise AnalysisError(f"anchor: {cm.args[0].name}.{method} not found")
+        b2 = Builder(model, ctx)
+        b2.objfields = b.objfields
+        args = [Val("const", None)] * 3 if method == "__exit__" else []
+        g = b2.run(v.func, cm, args, {})
+        g.live = g.live_nodes()
+        g.ctx = ctx
+        g.label = f"{cls.name}.{'buffered' if which == 'obj' else 'buffer_backend()'}.{method}[count={count},other={other}]"
+        self.stats["graphs"] += 1
+        self.stats["nodes"] += len(g.live)
+        self.cache[key] = (b2, g)
+        return b2, g
+
     # ------------------------------------------------------- entry points
     def concrete(self):
         cs = self.model.concrete_classes()
